@@ -83,8 +83,15 @@ Apply(m, h, o, outPre) ==
          R(m, NoRet, EINVAL, outPre)
     [] o.op = "payload" ->                   \* payload accessor: the address right after the header (C03)
          R(m, V64(HdrLen[o.view]), 0, outPre)
+    [] o.op = "getalias" ->                  \* deprecated getter whose RESULT OBJECT lies inside the buffer, Nat16(o.val) bytes behind the
+         \* header start (in-place conversion of a received header to host order): the field is read first, then the result is
+         \* stored; the object is 8 bytes (4 for the common header) in host order - little-endian on the platform the checks run on
+         LET r == GetSem(m, h, o.view, o.field)  k == Nat16(o.val)
+             sz == IF o.view = "CommonHeader" THEN 4 ELSE 8
+             img == [i \in 1..sz |-> r[9 - i]] \o << >>
+         IN R(Overlay(m, h + k, img), NoRet, 0, outPre)
 
-Touches(o) == o.op \in {"set", "init"}
+Touches(o) == o.op \in {"set", "init", "getalias"}
 
 (***************************************************************************)
 (* The machine                                                             *)
@@ -123,7 +130,7 @@ FrameOK ==
          /\ \A i \in 1..Len(m0) :
               mem'[b][i] # m0[i] =>
                  /\ Touches(step')
-                 /\ i > h /\ i <= h + HdrLen[step'.view]
+                 /\ (step'.op # "getalias" => (i > h /\ i <= h + HdrLen[step'.view]))
                  /\ step'.op = "set" =>
                       \E k \in 0..7 : LET p == 8*(i-1) + k - 8*h IN
                           p >= FStart(step'.view, step'.field)
